@@ -20,7 +20,7 @@ What is proved, and what is not:
       ∀ history url, filter (run history) url = Ref.select (Ref.run history) url
 
   is **false for the unchanged code**: what the jar *records* drifts from what RFC 6265 §5.3
-  prescribes in seven situations, each a kernel-checked counterexample below
+  prescribes in seven ways (eight kernel-checked counterexamples below)
   (`f10_host_only_lost`, `stale_host_only_key`, `stale_deadline_after_overwrite`,
   `invalid_max_age_shadows_expires`, `expires_at_epoch_kept`, `multiple_trailing_slashes`,
   `path_key_collision`, `domain_attr_case`).  The missing half of the refinement is therefore
